@@ -1,7 +1,8 @@
 import NfcVerif.Model.Des
 import NfcVerif.Model.Auth
 import NfcVerif.Model.AuthHist
-open NfcVerif NfcVerif.Des NfcVerif.Mac NfcVerif.Auth NfcVerif.AuthCard NfcVerif.AuthHist
+import NfcVerif.Model.AuthNdef
+open NfcVerif NfcVerif.Des NfcVerif.Mac NfcVerif.Auth NfcVerif.AuthCard NfcVerif.AuthHist NfcVerif.AuthNdef
 
 def C3 : Cipher := tdesBytes
 
@@ -13,36 +14,43 @@ def showBool : Py Bool → String := showPy (fun b => if b then "true" else "fal
 
 ops   `a:<pw>:<rc>` authenticate, `r:<blocks>` read_with_mac, `w:<data>:<block>` write_with_mac,
       `q:<blocks>` read_without_mac, `p:<data>:<block>` write_without_mac,
-      `t:<pw|None>:<rp>:<pf>:<rc>` protect, `s:<nn>:<16 octets>` block nn of the card is replaced (world event)
+      `t:<pw|None>:<rp>:<pf>:<rc>` protect, `n` tag.ndef (octets), `h` tag.ndef.has_changed, `f:<wipe|None>` format, `s:<nn>:<16 octets>` block nn of the card is replaced (world event)
 rules `x:<c|r>:<exchange>:<^mask | drop | =frame>`
 reply `<result>;... | <command>;... | <card state>` -/
 
 structure Script where
   liteS : Bool := false
   forget : Bool := false
+  noneOk : Bool := false
+  sys12fc : Bool := false
   idm : Bytes := []
   rcWritten : Bool := false
   extAuth : Bool := false
   blocks : List (Nat × Bytes) := []
-  ops : List (Op (Card × Nat)) := []
+  ops : List (NOp (Card × Nat)) := []
   rules : List Rule := []
 
 def hexNat (s : String) : Option Nat := (parseHex s).map beNat
 
-def parseOp (fields : List String) : Option (Op (Card × Nat)) :=
+def parseOp (fields : List String) : Option (NOp (Card × Nat)) :=
   match fields with
   | ["a", pw, rc] => do some (.auth (← parseHex pw) (← parseHex rc))
-  | ["r", bl] => do some (.readMac (← parseHex bl))
-  | ["w", d, b] => do some (.writeMac (← parseHex d) (← hexNat b))
-  | ["q", bl] => do some (.readPlain (← parseHex bl))
-  | ["p", d, b] => do some (.writePlain (← parseHex d) (← hexNat b))
+  | ["r", bl] => do some (.low (.readMac (← parseHex bl)))
+  | ["w", d, b] => do some (.low (.writeMac (← parseHex d) (← hexNat b)))
+  | ["q", bl] => do some (.low (.readPlain (← parseHex bl)))
+  | ["p", d, b] => do some (.low (.writePlain (← parseHex d) (← hexNat b)))
+  | ["n"] => some .ndef
+  | ["h"] => some .changed
+  | ["f", w] => do
+    let w ← if w = "None" then some none else (hexNat w).map some
+    some (.format w)
   | ["t", pw, rp, pf, rc] => do
     let pw ← if pw = "None" then some none else (parseHex pw).map some
     some (.protect pw (rp != "0") (← hexNat pf) (← parseHex rc))
   | ["s", n, d] => do
     let n ← hexNat n
     let d ← parseHex d
-    some (.world fun w => (w.1.set n d, w.2))
+    some (.low (.world fun w => (w.1.set n d, w.2)))
   | _ => none
 
 def parseRule (fields : List String) : Option Rule :=
@@ -63,6 +71,10 @@ def parseScript : List String → Script → Option Script
     else if tok = "S1" then parseScript rest { sc with liteS := true }
     else if tok = "G0" then parseScript rest { sc with forget := false }
     else if tok = "G1" then parseScript rest { sc with forget := true }
+    else if tok = "N0" then parseScript rest { sc with noneOk := false }
+    else if tok = "N1" then parseScript rest { sc with noneOk := true }
+    else if tok = "Y0" then parseScript rest { sc with sys12fc := false }
+    else if tok = "Y1" then parseScript rest { sc with sys12fc := true }
     else if tok.startsWith "I" then
       match parseHex (tok.drop 1).toString with
       | some i => parseScript rest { sc with idm := i }
@@ -83,10 +95,12 @@ def parseScript : List String → Script → Option Script
       | none, some r => parseScript rest { sc with rules := sc.rules ++ [r] }
       | none, none => none
 
-def showRes : Py Res → String
+def showRes : Py NRes → String
   | .ok (.bool b) => if b then "true" else "false"
   | .ok (.data none) => "none"
   | .ok (.data (some d)) => toHex d
+  | .ok (.obool none) => "none"
+  | .ok (.obool (some b)) => if b then "true" else "false"
   | .ok .unit => "unit"
   | .error e => "exc:" ++ e.name
 
@@ -96,10 +110,13 @@ def cardDigest (c : Card) : String :=
 
 def runScript (sc : Script) : String :=
   let card := Card.ofBlocks sc.liteS sc.idm sc.blocks sc.rcWritten sc.extAuth
-  let r := run C3 sc.forget (cardAir C3 sc.rules) sc.idm sc.liteS sc.ops ⟨Reader.init, (card, 0), []⟩
-  ";".intercalate (r.1.map showRes) ++ " | " ++ ";".intercalate (r.2.tr.map fun e => toHex e.1)
-    ++ " | " ++ cardDigest r.2.w.1 ++ " " ++ (if r.2.rd.authed then "1" else "0") ++ " "
-    ++ (match r.2.rd.sess with | some s => toHex s.sk ++ ":" ++ toHex s.iv | none => "nosess")
+  let r := nrun C3 sc.forget sc.noneOk (cardAir C3 sc.rules) sc.idm sc.liteS sc.ops
+    ⟨⟨Reader.init, (card, 0), []⟩, none, false, sc.sys12fc⟩
+  ";".intercalate (r.1.map showRes) ++ " | " ++ ";".intercalate (r.2.st.tr.map fun e => toHex e.1)
+    ++ " | " ++ cardDigest r.2.st.w.1 ++ " " ++ (if r.2.st.rd.authed then "1" else "0") ++ " "
+    ++ (match r.2.st.rd.sess with | some s => toHex s.sk ++ ":" ++ toHex s.iv | none => "nosess")
+    ++ " ndef=" ++ (match r.2.ndef with | some d => toHex d | none => "none")
+    ++ " mac=" ++ (if r.2.useMac then "1" else "0")
 
 def handle (line : String) : String :=
   match line.splitOn " " with
